@@ -271,6 +271,9 @@ class Merge(Expr):
             s_method in ("tasks", "p2p")
             and self.how in ("inner", "left", "right", "leftsemi")
             and self.how != broadcast_side
+            # a semi join keeps each left row at most once: the left side cannot be
+            # the one that is copied to every partition of the right side
+            and not (self.how == "leftsemi" and broadcast_side == "left")
             and broadcast is not False
         ):
             n_low = min(self.left.npartitions, self.right.npartitions)
